@@ -19,6 +19,27 @@ CLAIMED = {
          "the level of the Core tree.",
          "Intraprocedural taint; interprocedural flows are covered through the Core.ty field rule (R-C11-3). Typing imports may differ (allowed by the property).",
          "5/C11"),
+ "C07": ("Ok-path must-call on resolved MIR + decision-table enumeration + flag provenance + environment field-flow (abstract interpretation over the syntax)",
+         "Decides four structural necessary conditions of the reject half: every path through the reassignment arm to an Ok return passes the "
+         "mutability check (all CFG paths, resolved callees); the check's own decision table equals the specification on all 16 valuations; the "
+         "mutability flag stored at every definition site is the conjunction of the declared flags; definitions do not escape scope-closing constructs "
+         "(shadowing cannot replace an outer `fin` definition afterwards).",
+         "Does not decide the accept half nor the survival of the flag through the shadowing index map for all programs.", "5/C07"),
+ "C08": ("Ok-path must-call on MIR for every callee-resolution site + environment field-flow for the caught set (returned and handed-down environments) + operand provenance + construction-site tables",
+         "Decides: every function that types a call of a resolved Function passes its raises to the check (one known finding: method calls); the caught "
+         "set is enlarged only for the expression a handle guards and for a function body with its declared raises, and never escapes; ancestor "
+         "direction and polarity of check_raises_caught; declared raises must descend from Exception; handle -> try/except keeps every arm with its class.",
+         "Hierarchy-sensitive acceptance for all programs is not decided. Known finding D11 is listed in known_findings.json.", "5/C08"),
+ "C09": ("environment field-flow: abstract interpretation of every constraint-generator function over the Environment record with assume/guarantee summaries",
+         "Decides for every construct (every arm of every generator function, about 120) which fields of the environment it returns and hands down: "
+         "scope-closing constructs return the incoming variables, definition carriers are the reviewed ones, the unassigned-field join is "
+         "in & (branch1 | branch2) as a truth table, bodies that may not run do not assign; identifier lookup ends in `Undefined variable`.",
+         "Path-insensitive except for conditions on the incoming boolean flags; the x@n shadowing renaming is not decided.", "5/C09"),
+ "C12": ("hash-order flow census on MIR (taint from every HashSet/HashMap iteration to its terminal consumer) + who-may-call for other nondeterminism sources + Eq/Hash consistency + stub uniqueness",
+         "Decides that the iteration order of a std hash container reaches an order-sensitive consumer only at reviewed sites (46 today, each with a "
+         "reason; 5 are genuine findings, reproduced and listed), that no time/env/pid/thread/random source is called, that no mutable global state "
+         "exists, that manual Hash/Eq pairs are consistent, and that lookups by name are over sets with unique names where the set comes from the tree.",
+         "The census is conservative: an unreviewed consumer is reported. Constraint-push order is reviewed as benign by reading, not proved.", "5/C12"),
 }
 NA_REASON_PENDING = "check under construction in this round; see DESIGN.md section 5 for the planned rules"
 
